@@ -570,13 +570,17 @@ func (f *FnEnc) checkPost(res []Val) {
 	// frame: components not listed in modifies must be unchanged
 	if f.c.ModSet && f.wantTags(f.c.Tags) {
 		allowed := map[string]bool{}
-		for _, n := range f.e.compsMatching(f.c.Modifies) {
+		mods, freshOnly := f.e.modSpec(f.c.Modifies)
+		for _, n := range mods {
 			allowed[n] = true
 		}
 		var bad []string
 		for _, n := range f.e.reg.compOrd {
 			if _, ok := f.e.consts[n]; ok {
 				continue
+			}
+			if freshOnly[n] && f.st.comps[n] != f.entry.comps[n] {
+				f.obligeNoAssume("frame", "fresh."+n, f.c.Tags, frameFact(f.st.comps[n], f.entry.comps[n], f.entry.comps["W"]), f.c.Src)
 			}
 			if allowed[n] || f.st.comps[n] == f.entry.comps[n] {
 				continue
